@@ -21,6 +21,9 @@ type CircuitOpts struct {
 	MaxGates int  // extra gates beyond the outputs (default 400)
 	WideLast int  // if > 0: one case in five gives the last party 513..WideLast input bits (several OT-extension chunks)
 	GMW      bool // only XOR/XNOR/AND/INV
+	// ZeroWidth: one case in ten gives one party (not all) a 0-bit argument
+	// ([0]byte, or an unsized argument instantiated with nothing).
+	ZeroWidth bool
 	ANDHeavy bool
 }
 
@@ -51,7 +54,15 @@ func Circuit(t *rt.Tape, o CircuitOpts) *circuit.Circuit {
 	}
 	c := &circuit.Circuit{}
 	nin := 0
+	zero := -1
+	if o.ZeroWidth && t.Choose(rt.SGen, 10) == 0 {
+		zero = t.Choose(rt.SGen, o.Parties)
+	}
 	for p := 0; p < o.Parties; p++ {
+		if p == zero {
+			c.Inputs = append(c.Inputs, circuit.IOArg{Name: fmt.Sprintf("in%d", p), Type: uintType(0)})
+			continue
+		}
 		bits := 1 + t.Choose(rt.SGen, o.MaxIn)
 		if t.Choose(rt.SGen, 4) == 0 {
 			bits = 1 + t.Choose(rt.SGen, 3)
